@@ -182,16 +182,21 @@ func (l *Listener) HotRestart(epoch uint64) error {
 		return ErrHotRestartInProgress
 	}
 
-	l.state = hotRestartState
-	l.epoch = epoch
-
 	l.sessions.sessionMu.Lock()
 	defer l.sessions.sessionMu.Unlock()
 
+	// check before changing anything: returning from the middle of the loop below left the listener
+	// in hotRestartState for ever (no checkHotRestart goroutine) with some sessions already notified.
 	for session := range l.sessions.data {
 		if !session.handshakeDone {
 			return ErrInHandshakeStage
 		}
+	}
+
+	l.state = hotRestartState
+	l.epoch = epoch
+
+	for session := range l.sessions.data {
 		if session.state != defaultState {
 			continue
 		}
